@@ -1,12 +1,13 @@
 SPECIFICATION Spec
 CONSTANTS
-  Contents = {"a", "u", "m", "c"}
+  Contents = {"a", "u", "m"}
   Unknown = {"u"}
-  Options = {"default", "d", "i", "c", "p"}
-  MaxRuns = 3
+  Options = {"default", "p"}
+  MaxRuns = 4
   HazardValence = FALSE
   HazardNCCG = FALSE
-  HazardCache = FALSE
+  HazardCache = TRUE
   HazardParams = FALSE
-INVARIANT EmitInv
+INVARIANT Pure
+INVARIANT PureRef
 CHECK_DEADLOCK FALSE
